@@ -619,6 +619,7 @@ func c15Slice(rep *Report, line []byte) error {
 			k.eq("slice_beta_offset_div2", sh.SliceBetaOffsetDiv2, s.Beta)
 		}
 	}
+	k.eq("seq_parameter_set_id (resolved through the PPS)", sh.SeqParamID, c.Spsid)
 	if c.ChangeCyc >= 0 {
 		k.eq("slice_group_change_cycle", sh.SliceGroupChangeCycle, c.ChangeCyc)
 	}
